@@ -228,9 +228,10 @@ Proof.
   match goal with |- context [VStr ?q] => rename q into n end.
   cbn [exec]. destruct (str_eqb n underscore) eqn:Hu.
   { destruct x2 as [|v2|v2| | | | |]; reflexivity. }
-  destruct (var_get (vars s) n) as [[v|id c]|] eqn:Hv.
+  destruct (var_get (vars s) n) as [[v|id c|]|] eqn:Hv.
   2:{ destruct x2 as [|v2|v2| | | | |]; cbn [const_of]; try reflexivity.
       all: cbn [exec set_stk stk vars arith_of cmp_of]; reflexivity. }
+  2:{ destruct x2 as [|v2|v2| | | | |]; cbn [const_of]; reflexivity. }
   2:{ destruct x2 as [|v2|v2| | | | |]; cbn [const_of]; reflexivity. }
   destruct x2 as [|v2|v2| | | | |]; cbn [const_of]; try reflexivity; try discriminate Hlit.
   all: cbn [exec set_stk stk vars line out arith_of cmp_of fx_inc fx_now const_of];
